@@ -127,8 +127,15 @@ def build(tier, work, builder):
     J("c17_ctor", "h_c17_ctor", ["FeatureChecker::FeatureChecker"])
     J("c17_template_before", "h_c17_template_before", ["FeatureChecker::visitTemplateBefore", "visitTemplate gate (document.cpp, structural)"])
     J("c17_edge", "h_c17_edge", ["FeatureChecker::visitEdge"])
+    # where is_instantiated comes from: DocumentBuilder::process marks the template of every process of the system line
+    # (whether or not parameters stay unbound); run over the document constructors' kernel (contracts/C08)
+    from checks import C08
+    w8 = os.path.join(work, "c08"); os.makedirs(w8, exist_ok=True)
+    b8 = C08.build(tier, w8, builder)
+    jobs += b8["lemma_jobs"]
+    extra = [d for d in b8["slices"] if "process" in str(d.get("name", "")).lower()]
     return {
-        "jobs": jobs, "slices": [s.info() for s in slices],
+        "jobs": jobs, "slices": [s.info() for s in slices] + extra,
         "drops": ["DocumentVisitor base class / virtual dispatch (the traversal order is Document::accept's; visitTemplate's gate is checked structurally)",
                   "Document::accept body (stub counts the call)"],
         "trusted_base": ["CBMC 6.11 C++ front end + SAT", "flat type abstraction (TYPE-IS)", "expression arena stub", "induction over tree height (meta-step)",
